@@ -83,11 +83,21 @@ CheckThes(c, o) ==
              RangeOf(q.r) # exp \/ Len(q.r) # Cardinality(exp) } }
   \cup (IF Errd(o, "thes") THEN {} ELSE { <<"thes-unprobed", th>> : th \in ThesNamesOf(c) \ { ot.name : ot \in RangeOf(o.thes) } })
 
+CheckVec(c, o) ==
+  { <<"vec", q.f, q.q, q.k, q.ex, q.filter, q.elig, q.r>> : q \in { q \in RangeOf(o.vec) :
+        \/ Len(q.r) # Cardinality(RangeOf(q.r))
+        \/ ~TopKOK(c, q.f, q.q, q.k, RangeOf(q.ex), q.filter, RangeOf(q.elig), RangeOf(q.r)) } }
+  \cup (IF o.vec = <<>> \/ Errd(o, "vec") THEN {} ELSE
+        { <<"vstats", f>> : f \in { f \in VecFieldsOf(c) \cup { s.f : s \in RangeOf(o.vstats) } :
+              LET got == { s.n : s \in { x \in RangeOf(o.vstats) : x.f = f } } IN
+              IF NumVectors(c, f) = 0 THEN got # {} ELSE got # {NumVectors(c, f)} } }
+        \cup { <<"vec-unprobed", f>> : f \in VecFieldsOf(c) \ { q.f : q \in RangeOf(o.vec) } })
+
 CheckErrs(o) == { <<"err", e.asp, e.msg>> : e \in RangeOf(o.errs) }
 
 CheckObs(c, o) ==
   CheckMeta(c, o) \cup CheckDicts(c, o) \cup CheckStored(c, o) \cup CheckDocNums(c, o)
-  \cup CheckDv(c, o) \cup CheckThes(c, o) \cup CheckErrs(o)
+  \cup CheckDv(c, o) \cup CheckThes(c, o) \cup CheckVec(c, o) \cup CheckErrs(o)
 
 ----------------------------------------------------------------------------
 (* trace actions *)
